@@ -103,6 +103,10 @@ pub enum Submit {
 	Outputless,
 	/// no outputs and a garbage kernel signature
 	OutputlessBadSignature,
+	/// honest transaction whose fee carries a priority shift (fee large enough after shifting)
+	ShiftedFee,
+	/// declares a fee with a priority shift but pays only the shifted amount
+	ShiftedUnderpay,
 }
 
 #[derive(Serialize, Deserialize, Clone, Debug, PartialEq)]
@@ -538,6 +542,25 @@ impl<'w> PoolSim<'w> {
 					None
 				}
 			}
+			Submit::ShiftedFee | Submit::ShiftedUnderpay => {
+				if let Some(x) = free.first().cloned() {
+					let shift = rng.range(1, 6);
+					let fee = (Self::plain_fee(1, 1) << shift) | 1;
+					if x.value > fee + 1 {
+						let honest = *kind == Submit::ShiftedFee;
+						expect = Some(honest);
+						self.probe(if honest { "shifted_fee_submitted" } else { "shifted_underpay_submitted" });
+						let paid = if honest { fee } else { fee >> shift };
+						let f = KernelFeatures::Plain { fee: FeeFields::new(shift, fee).expect("fee fields") };
+						let (tx, _) = self.world.wallet.build_tx(&[x.clone()], &[x.value - paid], None, f);
+						Some(tx)
+					} else {
+						None
+					}
+				} else {
+					None
+				}
+			}
 			Submit::UnderFee => {
 				if let Some(x) = free.first().cloned() {
 					expect = Some(false);
@@ -750,7 +773,7 @@ pub fn gen_ops(rng: &mut SimRng, thorough: bool) -> Vec<Op> {
 	for _ in 0..n {
 		let k = rng.below(100);
 		let op = if k < 55 {
-			let kind = match rng.below(23) {
+			let kind = match rng.below(25) {
 				0..=6 => Submit::Valid,
 				7 | 8 => Submit::Dependent,
 				9 | 10 => Submit::Conflict,
@@ -764,7 +787,9 @@ pub fn gen_ops(rng: &mut SimRng, thorough: bool) -> Vec<Op> {
 				19 => Submit::NoSuchInput,
 				20 => Submit::BadSignature,
 				21 => Submit::Outputless,
-				_ => Submit::OutputlessBadSignature,
+				22 => Submit::OutputlessBadSignature,
+				23 => Submit::ShiftedFee,
+				_ => Submit::ShiftedUnderpay,
 			};
 			Op::Submit { kind, stem: rng.chance(1, 4), r: rng.next_u64() }
 		} else if k < 70 {
